@@ -71,6 +71,39 @@ static inline void g_snap_take(struct c02_snap *g, const ELEM *p)
 #define C02_INV_ER_K(self, first, i) C02_INV_ER1(g_k, g_er.sk, g_er.vk, self, first, i)
 #define C02_INV_ER_J(self, first, i) C02_INV_ER1(g_j, g_er.sj, g_er.vj, self, first, i)
 
+/* ---- copy constructor / copy assignment, loop 0:
+ *      for (ip = other.m_data, op = m_data; ip != other.m_data + other.m_size; ip++, op++) constructor(op, *ip)
+ * the new block: copy of other[gi] below the cursor, RAW (zero) from the cursor on; other's block is not written */
+#define C02_INV_CC_PTR(self, other, ip, op)                                                                                \
+    (C02_IN(ip, (other)->m_data, (other)->m_size) && C02_IN(op, (self)->m_data, (other)->m_size) &&                       \
+     __CPROVER_POINTER_OFFSET(op) == __CPROVER_POINTER_OFFSET(ip))
+#define C02_INV_CC1(gi, v0, self, ip)                                                                                      \
+    (!((gi) < C02_NSLOTS((self)->m_data)) ||                                                                               \
+     C02_IS(&(self)->m_data[gi], (gi) < C02_IDX(ip) ? ELEM_LIVE : ELEM_RAW, (gi) < C02_IDX(ip) ? (v0) : 0))
+#define C02_INV_CC_K(self, ip) C02_INV_CC1(g_k, g_cc.vk, self, ip)
+#define C02_INV_CC_J(self, ip) C02_INV_CC1(g_j, g_cc.vj, self, ip)
+#define C02_DEC_CC(other, ip) ((other)->m_size - C02_IDX(ip))
+
+/* ---- operator==, loop 0: for (; it != eit; ++it, ++bit) if (*it != *bit) return false;   (nothing is written) */
+const ELEM *g_eq_it;
+#define C02_INV_EQ(self, oth, it, bit)                                                                                     \
+    (C02_IN(it, (self)->m_data, (self)->m_size) && C02_IN(bit, (oth)->m_data, (self)->m_size) &&                          \
+     __CPROVER_POINTER_OFFSET(it) == __CPROVER_POINTER_OFFSET(bit) &&                                                      \
+     (!(g_k < C02_IDX(it)) || ELEM_V(&(self)->m_data[g_k]) == ELEM_V(&(oth)->m_data[g_k])))
+
+/* ---- template <class I, class O> vector(I first, O last), loop 0: for (; first != last; first++) push_back(*first)
+ * after reserve(distance): no reallocation inside the loop; element gi of the vector is a copy of g_cr_first0[gi] */
+const ELEM *g_cr_first0;
+#define C02_INV_CR(self, first, last)                                                                                      \
+    (__CPROVER_same_object(first, last) && __CPROVER_same_object(first, g_cr_first0) &&                                    \
+     __CPROVER_POINTER_OFFSET(g_cr_first0) <= __CPROVER_POINTER_OFFSET(first) &&                                           \
+     __CPROVER_POINTER_OFFSET(first) <= __CPROVER_POINTER_OFFSET(last) &&                                                  \
+     (self)->m_size == C02_IDX(first) - C02_IDX(g_cr_first0) &&                                                            \
+     (self)->m_capacity == C02_IDX(last) - C02_IDX(g_cr_first0))
+#define C02_INV_CR1(gi, self)                                                                                              \
+    (!((gi) < (self)->m_capacity) ||                                                                                       \
+     C02_IS(&(self)->m_data[gi], (gi) < (self)->m_size ? ELEM_LIVE : ELEM_RAW, (gi) < (self)->m_size ? ELEM_V(&g_cr_first0[gi]) : 0))
+
 /* ================================================================== harness helpers
  * c02_vec_any: an ARBITRARY state satisfying VEC(v): m_data == NULL && cap == 0 && size == 0, or m_data is a block
  * of exactly cap slots obtained from the allocator, size <= cap, slot k < size LIVE, slot size <= k < cap RAW -
